@@ -328,6 +328,10 @@ def m_C16(tier):
         for km in ('default', 'raw', 'hash', 'pickle', 'md5', 'strnf') if tier == 'thorough' else ('default', 'raw', 'hash', 'pickle', 'md5'):
             for backend, init in (('none', 'empty'), ('dict', 'seeded_archive')) + ((('file', 'empty'),) if tier == 'thorough' else ()):
                 cfgs.append(C('safe', alg, None if alg in ('no', 'inf') else 1, False, km, backend, init, nargs=2, spellings=1, unkeyable=True))
+        # ... with an ignore / rounding configuration, so that the arguments the key is built from differ from the caller's
+        for backend in ('none', 'dict'):
+            cfgs.append(C('safe', alg, None if alg in ('no', 'inf') else 1, False, 'raw', backend, nargs=2, spellings=1, unkeyable=True, ignore='y'))
+            cfgs.append(C('safe', alg, None if alg in ('no', 'inf') else 1, False, 'raw', backend, nargs=2, spellings=1, unkeyable=True, tol=0, ignore=('y', '**')))
     return cfgs
 
 
